@@ -17,7 +17,8 @@ Decides:
  A  argv[0]        Args::current_args takes exactly one element off args_os() (the program name, reduced
                    to file_name().to_str()) before boxing the same iterator as the items.
  W  who            process::exit and the std print functions are called only from the listed functions.
- N  non-empty      every arm of Message::render that reaches ParseFailure::Stderr writes to the Doc.
+ N  non-empty      every arm of Message::render that reaches ParseFailure::Stderr writes to the Doc.  The one arm that writes nothing
+                   (Missing) is dead: summarize_missing never builds Missing AND replaces it unconditionally before Doc::default().
  U  usage fallback the stdout/exit-0 usage fallback is guarded by an emptiness test taken before parsing, so a real
                    failure is never reclassified as success output.
  W  width agreement the default Info.max_width (what run() prints with) equals console::MAX_WIDTH (what monochrome()/Display - i.e.
